@@ -39,6 +39,36 @@ def budget(tier):
     return 480 if tier == "quick" else 2400
 
 
+def setup_worker(sb):
+    """third abort cause: an external function registered through the public
+    FunctionFactory.add_function that raises at line k"""
+    from csvpath.matching.functions.function_factory import FunctionFactory
+    from csvpath.matching.functions.function_focus import ValueProducer
+    from csvpath.matching.functions.args import Args
+    from csvpath.matching.productions import Term
+
+    if "vfboom" in FunctionFactory.NOT_MY_FUNCTION:
+        return
+
+    class VfBoom(ValueProducer):
+        def check_valid(self):
+            self.args = Args(matchable=self)
+            self.args.argset(1).arg(types=[Term], actuals=[int])
+            self.args.validate(self.siblings())
+            super().check_valid()
+
+        def _produce_value(self, skip=None):
+            self.value = self.matches(skip=skip)
+
+        def _decide_match(self, skip=None):
+            k = int(self._value_one(skip=skip))
+            if self.matcher.csvpath.line_monitor.physical_line_number == k:
+                raise RuntimeError(f"vfboom at line {k}")
+            self.match = self.default_match()
+
+    FunctionFactory.add_function("vfboom", VfBoom(None, "vfboom"))
+
+
 @st.composite
 def _case(draw):
     table = draw(progs.tables(min_rows=2, max_rows=8, ragged=False, extra=False))
@@ -51,7 +81,7 @@ def _case(draw):
     return {"table": table, "members": members,
             "abort_member": draw(st.integers(0, n - 1)),
             "abort_line": draw(st.sampled_from(datapos)),
-            "cause": draw(st.sampled_from(sorted(CAUSES))),
+            "cause": draw(st.sampled_from(sorted(CAUSES) + ["extfn"])),
             "how": draw(st.sampled_from(["comment", "policy"])),
             "method": draw(st.sampled_from(list(real.METHODS))),
             "next_method": draw(st.sampled_from(list(real.METHODS))),
@@ -67,6 +97,8 @@ def strategy(tier):
 def poison(table, cause, line):
     import copy
     t = copy.deepcopy(table)
+    if cause == "extfn":
+        return t
     comp, good, bad = CAUSES[cause]
     t["cols"].insert(1, {"name": "e", "type": "err", "dense": True})
     first = True
@@ -105,7 +137,7 @@ def one_point(case, sb, am, line):
     cause = case["cause"]
     table = poison(case["table"], cause, line)
     records = table["records"]
-    comp = CAUSES[cause][0]
+    comp = ["f", "vfboom", [], [["t", line]]] if cause == "extfn" else CAUSES[cause][0]
     members = case["members"]
     method = case["method"]
     problems = []
